@@ -20,3 +20,4 @@ import heap_collect_common as _hc
 PAIRS += [_hc.page_collect_pair()]      # per-page step of a collection: empty => freed, live blocks => kept (abandoned on thread exit), never freed
 import seg_common as _sc2
 PAIRS += [_sc2.pairs()[k] for k in ('segment_page_free',)]      # last page freed => segment freed; only abandoned pages left => segment abandoned
+PAIRS += [_sc2.pairs()['page_clear']]      # a freed page is wiped (no stale list pointers), its span returned once, the segment counts one page less
